@@ -52,6 +52,9 @@ class Hooks:
     def on_return(self, st, fn, ret):
         pass
 
+    def on_loop_entry(self, fn, head, states):
+        pass
+
     def on_loop(self, fn, head, info):
         self.log.append(('loop', fn.name, head, info))
 
@@ -427,6 +430,7 @@ class Interp:
         head = lp['head']
         body_order = [b for b in fi['rpo'] if b in lp['body']]
         log = self.hooks.log
+        self.hooks.on_loop_entry(fn, head, entry)
         heads = self.group_and_join(fn, lp, entry, 'entry')
         results = {}      # id(head state) -> (head, backs, outs, logsegment)
         rounds = 0
@@ -639,6 +643,8 @@ class Interp:
                 elif n in callargs:
                     lo, hi = S.bounds(v.a)
                     key.append((n, 0 if hi == 0 else ('+' if lo > 0 else '?')))
+                elif v.w <= 8 and not v.a.t:
+                    key.append((n, v.a.c))          # small constants select modes (widths, type bytes)
             elif isinstance(v, Ptr):
                 key.append((n, v.region))
             else:
@@ -654,6 +660,8 @@ class Interp:
                 if o.t:
                     continue
                 if isinstance(v, Int):
+                    if islocal and not o.t and v.w <= 8 and not v.a.t:
+                        key.append((rname, k, v.a.c))
                     if not islocal and not o.t:
                         c = S.const_of(v.a)
                         lo, hi = S.bounds(v.a)
